@@ -20,7 +20,7 @@ ASSUMPTIONS = ['min-freq is passed as a short decimal string; the oracle uses th
                'tables are constructed through ska build (one record arm+base+arm+N per cell), verified before judging']
 FILTERS = ['no-filter', 'no-const', 'no-ambig', 'no-ambig-or-const']
 REQUIRED = {t: ['filter:' + f for f in FILTERS] + ['rows_kept', 'rows_dropped', 'threshold_boundary_rows',
-                                                   'submultiset_relations_checked', 'float_sensitive_thresholds', 'pretreated_files', 'aligns_to_reused_output_file', 'large_tables', 'tables_over_65536_rows']
+                                                   'submultiset_relations_checked', 'float_sensitive_thresholds', 'pretreated_files', 'aligns_to_reused_output_file', 'large_tables', 'tables_over_65536_rows', 'alignments_over_65536_columns']
             for t in ('quick', 'thorough')}
 
 
@@ -180,6 +180,9 @@ def run_case(desc, ctx):
         settings = settings_for(rng, ns, desc['full'] and variant == 'rel', desc.get('mf'))
         if variant == 'chk':
             settings = settings[::4]
+        if desc.get('nrows', 0) > 65536:
+            # settings that let (nearly) every row through, so that the output itself exceeds 65536 columns
+            settings = [('no-filter', '0', False, False, False), ('no-ambig', '0', False, False, False), ('no-filter', '0', False, True, False)] + settings[::3]
         for (filt, mf, fam, mask, nogap) in settings:
             args = [ctx.path('t.skf'), '--filter', filt, '--min-freq', mf] + (['--filter-ambig-as-missing'] if fam else []) \
                 + (['--ambig-mask'] if mask else []) + (['--no-gap-only-sites'] if nogap else [])
@@ -209,6 +212,8 @@ def run_case(desc, ctx):
             got = sorted(M.columns(seqs))
             exp = expected_cols(rows, ns, filt, mf, fam, mask, nogap)
             bad = []
+            if len(exp) > 65536 and variant == 'rel':
+                res.count('alignments_over_65536_columns')
             if got != exp:
                 bad.append('columns differ: %d got, %d expected; missing=%s extra=%s'
                            % (len(got), len(exp), [c for c in exp if c not in got][:3], [c for c in got if c not in exp][:3]))
